@@ -119,7 +119,15 @@ func runC12(c *Ctx) {
 	}
 
 	// ---- R2: IPToAddr ----
-	if f := c.fn("netutil", "IPToAddr"); f != nil {
+	// decided exactly where possible (c12exact.go); the structural rules of R2
+	// are the fall-back
+	convExact := c12ConvExact(c)
+	if convExact {
+		c.L.Floor("C12.addr.provenance", 0)
+		c.L.Floor("C12.addr.ok-guard", 0)
+		c.L.Floor("C12.delegation", 1)
+	}
+	if f := c.fn("netutil", "IPToAddr"); f != nil && !convExact {
 		ip := f.Params[0]
 		for _, ci := range core.CallsTo(f, "net/netip.AddrFromSlice") {
 			call := ci.(*ssa.Call)
@@ -173,7 +181,7 @@ func runC12(c *Ctx) {
 	}
 
 	// ---- delegation of the NoMapped variants ----
-	if f := c.fn("netutil", "IPToAddrNoMapped"); f != nil {
+	if f := c.fn("netutil", "IPToAddrNoMapped"); f != nil && !convExact {
 		c12Delegates(c, f, core.ModPath+"/netutil.IPToAddr")
 	}
 	if f := c.fn("netutil", "IPNetToPrefixNoMapped"); f != nil {
